@@ -2,7 +2,11 @@
 
 VARIANTS = {
     "plain": {},
+    # queue code with sync/channel operations routed through the controlled scheduler
+    "sched-queue": {"rewrite": ["internal/queue/*.go"]},
 }
+
+NOT_APPLICABLE = {}
 
 CHECKS = {
     "C01": dict(
@@ -49,5 +53,17 @@ CHECKS = {
         rule="all triples over accounts {A,B,C} x devices {1,2} x groups {account(A), contact(A,B), contact(A,C), G1, G2}; each sealed announcement is tried with every combination of claimed sender device (5), opening device (6) and group (5); announcements taken after k=0..1 (quick) / 0..3 sends; distinct = (which coordinates are right, outcome) classes",
         assumptions=["part (b) of the property (every device ends up holding every chain key once all metadata entries are exchanged) is decided by the root-package harness when built; this table entry is updated then",
                      "keys outside the deterministic alphabet are not covered"],
+    ),
+    "C15": dict(
+        harness="internal__queue", run="TestVerifC15", variant="sched-queue", level="model_checking", gomaxprocs=2,
+        technique="stateless model checking of the real queue code under a controlled scheduler (all interleavings at lock/channel operations, iterative preemption bounding) + exhaustive operation sequences of the priority queue against a reference multiset",
+        rule="states = distinct schedule prefixes (decision nodes of the DFS tree), transitions = scheduling steps executed, traces = complete executions of the real code; classes = distinct (scenario, terminal observation) pairs",
+        assumptions=["sequentially consistent interleavings at synchronisation operations only (mutex lock, channel send/receive/select/close, goroutine start); unlock is not a preemption point",
+                     "ctx.Done() is an external channel polled by the scheduler; cancellation happens at an explicit scheduling point of the canceller thread",
+                     "1-3 items, 1-2 producers, one consumer, optional canceller and Pop caller"],
+    ),
+    "SELFTEST": dict(
+        harness="internal__zzverif__vsync", run="TestVerifSelfTest", level="model_checking",
+        technique="engine self-test", rule="engine self-test", assumptions=[],
     ),
 }
